@@ -46,6 +46,8 @@ type Options struct {
 	Handler               bool              // serve through martian's http.Handler implementation on net/http's server (TestingHTTPHandler)
 	ProxyProtocol         time.Duration     // > 0: the listener expects a PROXY protocol header (value = header read timeout)
 	Redirect              map[string]string // dial redirect (--connect-to): requested host:port -> address actually dialled
+	ConnectHeaderErr      bool              // the transport's GetProxyConnectHeader (as set by command/run for --proxy-header / Kerberos) fails
+	DialAttempts          int               // dialer retry attempts (default 1)
 }
 
 // TraceEv is one ProxyTrace event as seen through the verif hook.
@@ -117,6 +119,9 @@ func New(opt Options) (*Rig, error) {
 	tc.PromRegistry = r.Reg
 	tc.PromNamespace = r.NS
 	tc.Retry.Attempts = 1
+	if opt.DialAttempts > 0 {
+		tc.Retry.Attempts = opt.DialAttempts
+	}
 	tc.Retry.Backoff = time.Millisecond
 	if opt.DialTimeout != 0 {
 		tc.DialTimeout = opt.DialTimeout
@@ -142,6 +147,11 @@ func New(opt Options) (*Rig, error) {
 		return nil, err
 	}
 	r.trans = tr
+	if opt.ConnectHeaderErr {
+		tr.GetProxyConnectHeader = func(ctx context.Context, proxyURL *url.URL, target string) (http.Header, error) {
+			return nil, errors.New("vf: cannot build the CONNECT header")
+		}
+	}
 
 	cfg := forwarder.DefaultHTTPProxyConfig()
 	cfg.Address = "127.0.0.1:0"
